@@ -534,6 +534,10 @@ def run(R, tier, only=None, project=None):
     if only is None:
         from . import lexer as LX
         LX.check_elements(R, "R07.9", ("non-decimal",), tier == "thorough")
+    # ---- R07.11 typed echo tables: every integer type from the bytes of the message to the bytes of the answer ------------------
+    if only is None:
+        from . import echotable as ET
+        ET.check(R, "R07.11", "integers", tier, "`*U8? <literal>` ... `*ISIZE? <literal>` through Node::run on the echo witness (handler: next_data::<T>() then data(value)): NR1 / NR2 / NR3 literals at and around every bound and half-integer, zero in every spelling, huge exponents, non-decimal forms, MAX / MIN in short and long form, look-alike keywords, suffixed and non-numeric elements, optional parameters - the answer is the nearest integer or -222, -138, -104 as C07 states", 300)
     # ---- R07.4 element types: rows of the accept matrix --------------------------------------------------------------
     rows = C.matrix("dflt", "scpi")
     for ity in sorted(convs):
